@@ -34,7 +34,7 @@ out = ['| id | breaks | confirmed | ./check when the change was written | ./chec
 for r in rows:
     out.append('| %s | %s | %s | %s | %s | %s |' % r)
 conf = [r for r in rows if r[2] == 'yes']
-r1 = [r for r in conf if not r[0].endswith(('-r2', '-r3', '-r4', '-r5', '-r6', '-r7', '-r8'))]
+r1 = [r for r in conf if not r[0].endswith(('-r2', '-r3', '-r4', '-r5', '-r6', '-r7', '-r8', '-r9'))]
 r2 = [r for r in conf if r[0].endswith('-r2')]
 r3 = [r for r in conf if r[0].endswith('-r3')]
 r4 = [r for r in conf if r[0].endswith('-r4')]
@@ -42,6 +42,7 @@ r5 = [r for r in conf if r[0].endswith('-r5')]
 r6 = [r for r in conf if r[0].endswith('-r6')]
 r7 = [r for r in conf if r[0].endswith('-r7')]
 r8 = [r for r in conf if r[0].endswith('-r8')]
+r9 = [r for r in conf if r[0].endswith('-r9')]
 out.append('')
 for name, rs in (('round 1 (plausible maintainer mistakes)', r1), ('round 2 (deliberately subtle, written knowing that round 1 was caught)', r2),
                  ('round 3 (history-, state- and API-usage-dependent, written knowing the classes of rounds 1 and 2; first evaluated with the coverage-guided search stage)', r3),
@@ -49,7 +50,8 @@ for name, rs in (('round 1 (plausible maintainer mistakes)', r1), ('round 2 (del
                  ('round 5 (session 4: function bodies only – no new state, no table or constant changes; conjunctions of input values, equivalent paths that differ, error handling, far ends of ranges, interplay of features)', r5),
                  ('round 6 (session 4: ten properties with the most earlier misses; same rules as round 5)', r6),
                  ('round 7 (session 4: the other eleven properties; same rules)', r7),
-                 ('round 8 (session 4: all twenty properties once more, two changes each, written knowing every class of rounds 1-7)', r8)):
+                 ('round 8 (session 4: all twenty properties once more, two changes each, written knowing every class of rounds 1-7)', r8),
+                 ('round 9 (session 4: twelve properties, after the D21 fix, the low-level models and the API-surface tie; public API surface excluded as well)', r9)):
     if rs:
         out.append('%s: %d confirmed changes; %d reported as VIOLATION at first evaluation (%d of them with a failing input); %d reported now (%d with a failing input).' % (
             name, len(rs), sum(r[3].split(' (generators only')[0].count('VIOLATION') > 0 for r in rs), sum('VIOLATION' in r[3].split(' (generators only')[0] and 'no-failing' not in r[3].split(' (generators only')[0] for r in rs),
